@@ -160,7 +160,8 @@ def plain(t):
 
 def _ev(t, m):
     return (plain(t), m.message_type.value, m.channel, m.note, m.velocity, m.numerator, m.denominator,
-            m.key.value if m.key is not None else None, m.program)
+            m.key.value if m.key is not None else None, m.program) + \
+           ((m.control,) if getattr(m, "control", None) is not None else ())     # control changes carry a tenth field
 
 
 def view_abs(s):
